@@ -399,6 +399,15 @@ def _writer_paths(fn, find_method=None, _depth=2):
                     if h is not None and h.name != fn.name:
                         paths = merged(paths, _writer_paths(h, find_method, _depth - 1))
                 continue
+            # the dict handed to a same-class helper that completes it: `return self.h(d, …)`, `self.h(d, …)`, `d = self.h(d, …)`
+            hc = s.value if isinstance(s, (ast.Return, ast.Expr, ast.Assign)) and isinstance(getattr(s, "value", None), ast.Call) else None
+            if hc is not None and isinstance(hc.func, ast.Attribute) and isinstance(hc.func.value, ast.Name) \
+                    and hc.func.value.id == "self" and any(isinstance(a_, ast.Name) for a_ in hc.args) \
+                    and find_method is not None and _depth > 0 and hc.func.attr != "update":
+                h = find_method(hc.func.attr)
+                if h is not None and h.name != fn.name:
+                    paths = merged(paths, _writer_paths(h, find_method, _depth - 1))
+                    continue
             if isinstance(s, ast.Assign) and isinstance(s.value, ast.Dict) and isinstance(s.targets[0], ast.Name):
                 for p in paths:
                     for k, v in zip(s.value.keys, s.value.values):
@@ -623,6 +632,53 @@ def r_json_keys(E):
                 res.samples.append({"writer_path": where, "emits": sorted(p["keys"]),
                                     "reader_branch": branch,
                                     "verdict": "branch reads only emitted keys"})
+    # a key is left out only when its own datum is missing (or when a parameter of the writer says so): the test that
+    # guards `d["source"] = {… self.source.name …}` may look at self.source, not at something else about the value
+    from ..astutil import path_conditions as _pc, nodes_through_helpers as _nth
+    for cls, suffix in writers:
+        wrel, w0 = pm.find_function(suffix, f"{cls}.to_json")
+        finder = lambda name, _c=cls: (pm.find_method(_c, name)[1] if name != "to_json" else None)
+        fns, todo = [w0], [w0]
+        while todo:
+            f_ = todo.pop()
+            for c in ast.walk(f_):
+                if isinstance(c, ast.Call) and isinstance(c.func, ast.Attribute) and norm(c.func.value) == "self":
+                    h = finder(c.func.attr)
+                    if h is not None and h not in fns and not is_property(h):
+                        fns.append(h)
+                        todo.append(h)
+        for f_ in fns:
+            params = {a.arg for a in f_.args.args}
+            for st in ast.walk(f_):
+                if not (isinstance(st, ast.Assign) and isinstance(st.targets[0], ast.Subscript)
+                        and isinstance(st.targets[0].slice, ast.Constant) and isinstance(st.targets[0].slice.value, str)):
+                    continue
+                key_ = st.targets[0].slice.value
+                reads = {x.attr for x in ast.walk(st.value) if isinstance(x, ast.Attribute)
+                         and isinstance(x.value, ast.Name) and x.value.id == "self"}
+                for _ in range(3):      # what a property / helper of the class reads is read by the value too
+                    for a_ in sorted(reads):
+                        h_ = finder(a_)
+                        if h_ is not None:
+                            reads |= {x.attr for x in ast.walk(h_) if isinstance(x, ast.Attribute)
+                                      and isinstance(x.value, ast.Name) and x.value.id == "self"}
+                for t, pol in _pc(st, f_):
+                    atoms = t.values if isinstance(t, ast.BoolOp) else [t]
+                    for at in atoms:
+                        res.instances += 1
+                        a_reads = {x.attr for x in ast.walk(at) if isinstance(x, ast.Attribute)
+                                   and isinstance(x.value, ast.Name) and x.value.id == "self"}
+                        a_names = {x.id for x in ast.walk(at) if isinstance(x, ast.Name)} - {"self"}
+                        if a_reads and not (a_reads & reads) and not (a_names & params) and reads:
+                            fkey = f"{cls}.to_json key {key_} depends on {sorted(a_reads)[0]}"
+                            if not any(f.key == fkey for f in res.findings):
+                                res.findings.append(Finding(
+                                    "R-JSON-KEYS", fkey,
+                                    f"{cls}.to_json (in {f_.name}) writes the key '{key_}' (from self.{', self.'.join(sorted(reads))}) "
+                                    f"only when `{norm(at)[:50]}`, a test that does not look at the datum written: a value "
+                                    f"that has the datum but fails the test (an input with a source *and* a parent, such "
+                                    f"as a country's carbon intensity) is exported without it and loads back without it",
+                                    wrel, st.lineno, f"{cls}.{f_.name}"))
     res.floor = 8        # four writers, at least the with / without calculated-attributes paths of each
     return res
 
@@ -914,6 +970,43 @@ def _validator_forms(fn, module_const=None):
                     and norm(c.args[0]) == val and isinstance(c.args[1], ast.Name):
                 handled.add("class")
     return handled
+
+
+@rule("R-VAL-WRAP")
+def r_val_wrap(E):
+    pm = E.pm
+    res = RuleResult("R-VAL-WRAP", "the class tests of the validator (isinstance(value, <annotation>), isinstance(item, "
+                                   "<element class>)) answer for the object actually given: an __instancecheck__ override on "
+                                   "the model metaclass never answers True without looking at the class that is asked about "
+                                   "— constructors wrap links and list elements before validating them, and a wrapper that "
+                                   "passes for every class lets a Server sit among the devices")
+    from ..paths import enumerate_paths
+    for cn, ci in sorted(pm.classes.items()):
+        for m in [x for x in ci.node.body if isinstance(x, ast.FunctionDef) and x.name == "__instancecheck__"]:
+            ps = [a.arg for a in m.args.args]
+            if len(ps) < 2:
+                continue
+            # only metaclasses decide isinstance(x, <model class>): the first parameter is the class asked about
+            is_meta = any(norm(b) in ("type", "ABCMeta") or norm(b).endswith("Meta") for b in ci.node.bases)
+            if not is_meta:
+                continue
+            res.instances += 1
+            asked = ps[0]
+            for p in enumerate_paths(m):
+                if p.end != "return" or not p.stmts or not isinstance(p.stmts[-1], ast.Return):
+                    continue
+                r = p.stmts[-1]
+                if isinstance(r.value, ast.Constant) and r.value.value is True and not any(
+                        isinstance(x, ast.Name) and x.id == asked for c, _ in p.conds for x in ast.walk(c)):
+                    res.findings.append(Finding(
+                        "R-VAL-WRAP", f"{cn}.__instancecheck__ answers True whatever the class",
+                        f"{cn}.__instancecheck__ returns True when `{' and '.join(norm(c)[:60] for c, pol in p.conds)}` without "
+                        f"looking at `{asked}`: isinstance(<wrapper of a Server>, Device) is True, so the element-class and "
+                        f"link-class tests of check_input_value_type_positivity_and_unit accept any wrapped object — and "
+                        f"constructors wrap their links and lists before validating them", ci.path, r.lineno,
+                        f"{cn}.__instancecheck__"))
+    res.floor = 1
+    return res
 
 
 @rule("R-VAL-FORMS")
